@@ -58,6 +58,13 @@ def zexpr(e, env):
             return a * b
         if isinstance(e.op, ast.FloorDiv):
             return a / b
+        if isinstance(e.op, ast.Mod):
+            return a % b
+        if isinstance(e.op, ast.BitAnd):
+            k = z3.simplify(b)
+            if z3.is_int_value(k) and k.as_long() >= 0 and (k.as_long() & (k.as_long() + 1)) == 0:
+                return a % (k.as_long() + 1)            # x & (2^k - 1) == x mod 2^k for every Python int
+            raise strsym.Unsupported("& with something other than a constant mask 2^k - 1")
         if isinstance(e.op, (ast.LShift, ast.RShift)):
             k = z3.simplify(b)
             if not z3.is_int_value(k):
